@@ -860,8 +860,8 @@ static void RunCase(long k, const std::string & line)
          std::set<std::string> reported;
          for (size_t oi=0; oi<offs.size(); oi++)
          {
-            const size_t B = offs[oi];
-            size_t jj = 0; while((jj < n)&&(cum[jj+1] <= B)) jj++;
+            const size_t B0 = offs[oi];
+            size_t jj = 0; while((jj < n)&&(cum[jj+1] <= B0)) jj++;
             Run r(-1);
             for (size_t i=0; i<j; i++) (void) r.Exec(ops[i], NULL, NULL);
             if (!r.Alive(K)) continue;
@@ -871,6 +871,22 @@ static void RunCase(long k, const std::string & line)
                std::vector<std::string> junk;
                for (size_t i=0; (i<jj)&&(i<so.size()); i++) {std::vector<std::string> sf = Split(so[i], '~'); const std::string sc = sf[0]; sf.erase(sf.begin()); (void) r.BuildCommand(K, sc, sf, junk, false);}
             }
+            // the stream as THIS run's client writes it (absolute patterns and forged session fields carry this run's session ids),
+            // cut at the same place: inside the same Message, the same number of bytes into it (clamped to its length)
+            std::vector<uint8> rbytes; std::vector<size_t> rcum;
+            {
+               std::vector<std::string> junk2;
+               std::vector<MessageRef> rmsgs = r.BuildSubs(K, stream, junk2, true);
+               Serialise(rmsgs, rbytes, rcum);
+            }
+            size_t Br = B0;
+            if (rcum.size() == cum.size())
+            {
+               if (jj < n) {const size_t delta = B0-cum[jj]; const size_t len = rcum[jj+1]-rcum[jj]; Br = rcum[jj] + ((delta < len) ? delta : (len ? len-1 : 0));}
+                      else Br = rcum[n];
+            }
+            const std::vector<uint8> & bytes = rbytes;
+            const size_t B = Br;
             Client & cl = r.w.client(r.widx[K]);
             size_t sent = 0;
             while(sent < B)
